@@ -327,10 +327,11 @@ def DemoWriter.run (objSize : Nat → Option Nat) (w : DemoWriter) : List Op →
     let (w2, rs) := DemoWriter.run objSize w1 rest
     (w2, r :: rs)
 
-/-- two chunk lists agree up to the order of the objects inside each snapshot -/
+/-- two chunk lists agree up to the order of the objects inside each snapshot: the same chunks, the
+same object *sets* -/
 def chunksAgree : List HChunk → List HChunk → Prop
   | [], [] => True
-  | .snapshot a :: r, .snapshot b :: r' => a.Perm b ∧ chunksAgree r r'
+  | .snapshot a :: r, .snapshot b :: r' => (∀ it, it ∈ a ↔ it ∈ b) ∧ chunksAgree r r'
   | c :: r, c' :: r' => c = c' ∧ chunksAgree r r'
   | _, _ => False
 
